@@ -676,6 +676,20 @@ func (m c04) requestCase(rc reqCodec, r *core.Rand, i int) {
 				}
 			}
 		}
+		// (4b) a decoded request whose exported fields the caller then replaces (fresh slices; for type 5 a middle element,
+		// the first and last left alone) encodes, on its first Marshal, what the fields now hold
+		{
+			o, canon := rc.mk()
+			if o.Unmarshal(clone(enc)) && c04EditFields(o, r) {
+				want := canon()
+				if got := o.Marshal(); !bytes.Equal(got, want) {
+					m.bad(rc.name+":marshal-differs:fields-replaced-after-decode", "Marshal of a decoded request whose fields the caller replaced does not encode the fields",
+						map[string]any{"codec": rc.name, "decoded": core.Hex(enc), "want": core.Hex(want), "got": core.Hex(got)})
+				} else {
+					c.Class("fields_replaced_after_decode_ok")
+				}
+			}
+		}
 		// (5) the object held a value, then REJECTED some bytes (truncated / garbage), then decodes enc: the value is enc's
 		for _, junk := range [][]byte{prev[:len(prev)/2], r.Bytes(7), {}, append(clone(prev), 1, 2, 3)} {
 			o, canon := rc.mk()
@@ -1233,4 +1247,39 @@ func runC04(c *core.Ctx) {
 	if c.Next() {
 		m.rustVectors()
 	}
+}
+
+// c04EditFields replaces exported fields of a decoded request object with fresh slices; false if there is nothing to
+// replace (or the type has no exported fields).
+func c04EditFields(o reqObj, r *core.Rand) bool {
+	switch q := o.(type) {
+	case *type1.BasicPrivateTokenRequest:
+		q.BlindedReq = r.Bytes(49)
+		q.TokenKeyID ^= 0x55
+	case *type2.BasicPublicTokenRequest:
+		q.BlindedReq = r.Bytes(256)
+	case *type5.BatchedPrivateTokenRequest:
+		n := len(q.BlindedReq)
+		if n < 3 {
+			return false
+		}
+		switch r.IntN(3) {
+		case 0:
+			q.BlindedReq[1+r.IntN(n-2)] = r.Bytes(32)
+		case 1:
+			for j := 1; j < n-1; j++ {
+				q.BlindedReq[j] = r.Bytes(32)
+			}
+		default:
+			a, b := 1+r.IntN(n-2), 1+r.IntN(n-2)
+			q.BlindedReq[a], q.BlindedReq[b] = q.BlindedReq[b], q.BlindedReq[a]
+			q.BlindedReq[a] = clone(q.BlindedReq[a])
+		}
+	case *type3.RateLimitedTokenRequest:
+		q.Signature = r.Bytes(96)
+		q.NameKeyID = r.Bytes(32)
+	default:
+		return false
+	}
+	return true
 }
